@@ -149,6 +149,38 @@ theorem c15_is_empty_iff (N : Nat) (as : List Act) (self base alloc : Nat) :
       (run (Sys.init N) as).ring.out = [] :=
   isEmpty_iff_of_shape (reach_inv N as).1 self base alloc
 
+/-- [A] The precondition `aws_ring_buffer_release` asserts (`s_buf_belongs_to_pool`, translated on every run from
+`source/ring_buffer.c`) holds for the handle of EVERY outstanding buffer in every reachable state of every interleaving,
+wherever the storage lies (`base ≠ NULL`); and the predicate is exact on handles into the ring's address range: it accepts
+`(base + off, len)` iff the buffer ends inside the storage (`off + len ≤ N`) — a handle running past the end is rejected. -/
+theorem c15_outstanding_belong (N : Nat) (as : List Act) (self base alloc : Nat) (hb : base ≠ 0) :
+    (∀ b ∈ (run (Sys.init N) as).ring.out,
+        AwsVerif.Gen.Ring.bufBelongsToPool (rbOf (run (Sys.init N) as).ring self base alloc) (bufOf base b) = true) ∧
+    (∀ b : Nat × Nat,
+        AwsVerif.Gen.Ring.bufBelongsToPool (rbOf (run (Sys.init N) as).ring self base alloc) (bufOf base b) = true ↔
+          b.1 + b.2 ≤ N) := by
+  have hN := reach_N N as
+  refine ⟨fun b hbm => ?_, fun b => ?_⟩
+  · rw [belongs_bufOf_iff _ _ _ _ hb, hN]
+    exact ((c15_no_overlap N as).2 b hbm).2
+  · rw [belongs_bufOf_iff _ _ _ _ hb, hN]
+
+/-- [A] The releaser's step in the model is the store the C performs: releasing the oldest outstanding buffer `b` publishes
+`buf->buffer + buf->capacity` (the expression is read from `aws_ring_buffer_release`, which must contain exactly this one
+atomic store, to `tail`) and changes neither `head` nor the ring's size; the remaining outstanding buffers are the others. -/
+theorem c15_release_is_tail_store (N : Nat) (as : List Act) (base : Nat) (b : Nat × Nat) (rest : List (Nat × Nat))
+    (h : (run (Sys.init N) as).ring.out = b :: rest) :
+    let s' := run (Sys.init N) (as ++ [.release])
+    base + s'.ring.tail = AwsVerif.Gen.Ring.releaseTail (bufOf base b) ∧ s'.ring.out = rest ∧
+      s'.ring.head = (run (Sys.init N) as).ring.head ∧ s'.pending = (run (Sys.init N) as).pending := by
+  intro s'
+  have e : s' = { run (Sys.init N) as with ring := release (run (Sys.init N) as).ring } := by
+    show run (Sys.init N) (as ++ [.release]) = _
+    simp only [run, List.foldl_append, List.foldl_cons, List.foldl_nil, step]
+  obtain ⟨h1, h2, h3, _⟩ := release_tail_eq (run (Sys.init N) as).ring base b rest h
+  rw [e]
+  exact ⟨h1, h2, h3, rfl⟩
+
 /-! ### Non-vacuity: the hypotheses are met by non-trivial reachable states -/
 
 /-- a reachable state with `head` one past the end of the storage (full-capacity grant on an empty ring), and
@@ -186,5 +218,14 @@ example :
 /-- a refused acquire exists (the size theorems are not about a function that always succeeds) -/
 example : (run (Sys.init 4) [.loadTail (.exact 3), .complete, .loadTail (.exact 2), .complete]).last
     = some (.exact 2, .oom) := by decide
+
+/-- `c15_outstanding_belong` / `c15_release_is_tail_store` on a wrapped reachable state: both outstanding handles belong,
+a handle straddling the end does not, and the release publishes the end of the oldest buffer -/
+example :
+    let as := [Act.loadTail (.exact 5), .complete, .loadTail (.exact 2), .complete, .release, .loadTail (.exact 3), .complete]
+    (run (Sys.init 8) as).ring.out = [(5, 2), (0, 3)] ∧
+    AwsVerif.Gen.Ring.bufBelongsToPool (rbOf (run (Sys.init 8) as).ring 1 16 1) (bufOf 16 (5, 2)) = true ∧
+    AwsVerif.Gen.Ring.bufBelongsToPool (rbOf (run (Sys.init 8) as).ring 1 16 1) (bufOf 16 (5, 4)) = false ∧
+    (run (Sys.init 8) (as ++ [.release])).ring.tail = 7 := by decide
 
 end AwsVerif.Props.C15
